@@ -83,3 +83,19 @@ PROPS["C05"] = red(["reduce"], r"oracle:C05:",
 PROPS["C08"] = red(["reduce", "apply", "history", "meta-reduce", "meta-apply"], r"oracle:C08:",
     "Theorems: beta steps never enlarge the free-variable set nor create UD; hence reduce, apply and every "
     "history of calls preserve closedness and UD-freeness. Oracle: fv / has_ud on implementation results.")
+
+PROPS["C06"] = red(["history", "normalise", "reduce"], r"oracle:C06:",
+    "Theorems: Church-Rosser for the calculus (parallel reduction, complete development); every history of reduce "
+    "calls with arbitrary orders and limits is a beta reduction; normal forms reached by any two histories / any two "
+    "normalising orders coincide; the result of any call still normalises (under NOR) to the same normal form. "
+    "Oracle: final terms of random histories normalise (Spec leftmost iteration) to the normal form of the start term.",
+    "; normalise: 2500 (quick) / 20000 (thorough) terms built backwards from random normal forms by beta-expansions "
+    "(erased diverging arguments, K s Omega, identity wrappers), run under NOR/HNO/CBN/HSP with limit 0 and under the "
+    "eager orders with a safe limit")
+PROPS["C07"] = red(["normalise"], r"oracle:C07:",
+    "Theorems: standardisation (Kashima); hence leftmost reduction reaches every existing normal form and the model of "
+    "reduce(NOR, 0) returns it; reduce(CBN, 0) returns whenever a weak head normal form exists. PARTIAL for HNO/HSP: "
+    "soundness (a returned HNO result is the normal form; a returned HSP result is a head normal form) is proved, "
+    "termination of HNO/HSP is decided by the oracle only: planted normal forms must be found by the implementation "
+    "under NOR and HNO with limit 0, CBN/HSP must return (w)hnf; a hang or stack overflow is a violation.",
+    "; normalise suite as described under C06")
